@@ -44,7 +44,7 @@ def load_decoders(ctx):
 
 
 MIN_HITS = {
-    'quick': {"request": 1322576, "prefix": 240800, "extreme_len": 848467, "short": 53551, "decoders_seen": 736},
+    'quick': {"request": 1456225, "prefix": 253200, "extreme_len": 965922, "short": 55836, "decoders_seen": 736},
     'thorough': {"request": 6957792, "prefix": 1138233, "extreme_len": 4452364, "short": 488332, "decoders_seen": 1689},
 }
 
